@@ -155,7 +155,7 @@ impl Property for C16 {
     }
     fn cases(&self, tier: Tier) -> u32 {
         match tier {
-            Tier::Quick => 6_000,
+            Tier::Quick => 15_000,
             Tier::Thorough => 200_000,
         }
     }
